@@ -25,6 +25,7 @@ type Spec struct {
 	Replay  bool                `json:"replay"`
 	Out     string              `json:"out"`
 	LogKeep int                 `json:"log_keep"`
+	Batch   int                 `json:"batch"` // component worlds: sub-runs per process
 }
 
 // Result is what it answers (file Spec.Out).
@@ -48,6 +49,10 @@ type Result struct {
 	Params     any                 `json:"params,omitempty"`
 	Log        []string            `json:"log,omitempty"`
 	Panic      string              `json:"panic,omitempty"`
+	Sub        int                 `json:"sub"`                // sub-runs executed (batch worlds), else 1
+	SubNontriv int                 `json:"sub_nontrivial"`     // non-trivial sub-runs
+	Sigs       []string            `json:"sigs,omitempty"`     // signatures of the non-trivial sub-runs
+	SubSeed    uint64              `json:"sub_seed,omitempty"` // seed of the sub-run that violated
 }
 
 func writeResult(spec *Spec, r *Result) {
@@ -89,7 +94,7 @@ func TestWorker(t *testing.T) {
 	} else {
 		ch = sim.NewChoices(spec.Seed)
 	}
-	func() {
+	bubble := func(f func()) {
 		defer func() {
 			if p := recover(); p != nil {
 				msg := fmt.Sprint(p)
@@ -100,10 +105,58 @@ func TestWorker(t *testing.T) {
 				res.Panic = string(debug.Stack())
 			}
 		}()
-		synctest.Test(t, func(t *testing.T) {
-			runWorld(&spec, ch, res)
-		})
-	}()
+		synctest.Test(t, func(t *testing.T) { f() })
+	}
+	if batchWorld(spec.World) {
+		n := spec.Batch
+		if n <= 0 || spec.Replay {
+			n = 1
+		}
+		agg := &Result{Faults: map[string]int{}, Probes: map[string]int{}, Parks: map[string]int{}, Stats: map[string]int{}}
+		for j := 0; j < n && res.Infra == ""; j++ {
+			sub := &Result{}
+			subSeed := spec.Seed
+			if !spec.Replay && spec.Batch > 0 {
+				subSeed = sim.Mix(spec.Seed, uint64(j))
+			}
+			if spec.Replay {
+				ch = sim.NewReplay(subSeed, spec.Choices)
+			} else {
+				ch = sim.NewChoices(subSeed)
+			}
+			res = sub
+			bubble(func() { runWorld(&spec, ch, sub, fmt.Sprintf("%d", j)) })
+			agg.Sub++
+			agg.Steps += sub.Steps
+			agg.SimMs += sub.SimMs
+			for k, v := range sub.Faults {
+				agg.Faults[k] += v
+			}
+			for k, v := range sub.Probes {
+				agg.Probes[k] += v
+			}
+			for k, v := range sub.Parks {
+				agg.Parks[k] += v
+			}
+			for k, v := range sub.Stats {
+				agg.Stats[k] += v
+			}
+			if sub.Nontrivial {
+				agg.SubNontriv++
+				agg.Nontrivial = true
+				agg.Sigs = append(agg.Sigs, sub.Signature)
+			}
+			agg.Params, agg.EventHash, agg.Signature, agg.Stopped = sub.Params, sub.EventHash, sub.Signature, sub.Stopped
+			if sub.Infra != "" || len(sub.Violations) > 0 {
+				agg.Infra, agg.Panic, agg.Violations, agg.SubSeed, agg.Log = sub.Infra, sub.Panic, sub.Violations, subSeed, sub.Log
+				break
+			}
+		}
+		res = agg
+	} else {
+		bubble(func() { runWorld(&spec, ch, res, "0") })
+		res.Sub = 1
+	}
 	res.Choices = ch.Recorded()
 	res.NChoices = ch.Consumed()
 	res.Trace = ch.Trace
@@ -115,7 +168,9 @@ func TestWorker(t *testing.T) {
 	os.Exit(0)
 }
 
-func runWorld(spec *Spec, ch *sim.Choices, res *Result) {
+func batchWorld(w string) bool { return w == "lb" || w == "health" }
+
+func runWorld(spec *Spec, ch *sim.Choices, res *Result, uniq string) {
 	s := sim.NewSim(ch)
 	if spec.LogKeep > 0 {
 		s.SetLogKeep(spec.LogKeep)
@@ -148,6 +203,10 @@ func runWorld(spec *Spec, ch *sim.Choices, res *Result) {
 			res.Infra = "run ended before the final check: " + s.Stopped
 		}
 		finish(w.Stats, w.Nontrivial(), p)
+	case "lb":
+		s.Horizon = time.Hour
+		w := worlds.RunLB(s, spec.Prop, uniq)
+		finish(w.Stats, w.Nontrivial(), map[string]any{"policy": w.Policy, "concurrent": w.Conc})
 	default:
 		res.Infra = "unknown world " + spec.World
 	}
